@@ -468,4 +468,23 @@ MUTANTS += [
      "new": """      if (_json_message[i] == '\\n' && false)
       {
         _json_message[i] = ' ';"""},
+    # ---------------- data races (decided by the ThreadSanitizer flavour of rtstress) ----------------
+    {"id": "c17-get-logger-without-lock", "props": ["C17"], "file": "quill/core/LoggerManager.h",
+     "desc": "LoggerManager::get_logger() reads the registry without the lock",
+     "old": """    LockGuard const lock{_spinlock};
+    LoggerBase* logger = _find_logger(logger_name);""",
+     "new": """    LoggerBase* logger = _find_logger(logger_name);"""},
+    {"id": "c20-for-each-context-without-lock", "props": ["C20", "C06"], "file": "quill/core/ThreadContextManager.h",
+     "desc": "for_each_thread_context() iterates the context vector without the lock (races with thread registration)",
+     "old": """  void for_each_thread_context(TCallback cb)
+  {
+    LockGuard const lock{_spinlock};
+""",
+     "new": """  void for_each_thread_context(TCallback cb)
+  {
+"""},
+    {"id": "c17-spinlock-acquire-relaxed", "props": ["C17", "C20"], "file": "quill/core/Spinlock.h",
+     "desc": "Spinlock::lock() takes the flag with a relaxed exchange (no acquire: the protected data is read without happens-before)",
+     "old": "while (_flag.exchange(State::Locked, std::memory_order_acquire) == State::Locked);",
+     "new": "while (_flag.exchange(State::Locked, std::memory_order_relaxed) == State::Locked);"},
 ]
